@@ -565,3 +565,27 @@ fn test_gcd_factors() {
     );
     assert_eq!(nn, Uint::from_digit(19 * 31));
 }
+
+// Verification hooks (add-only; compiled only with `--cfg yamaquasi_verif`).
+#[cfg(yamaquasi_verif)]
+pub mod verif_hooks {
+    use super::*;
+
+    /// Private fields of the context: (k, ninv64, r, r2).
+    pub fn zmodn_fields(zn: &ZmodN) -> (u32, u64, MInt, MInt) {
+        (zn.k, zn.ninv64, zn.r, zn.r2)
+    }
+    pub fn mint_lt(x: &[u64], n: &[u64], sz: u32) -> bool {
+        super::mint_lt(x, n, sz)
+    }
+    pub fn mint_add(x: &mut [u64], y: &[u64], sz: u32) {
+        super::mint_add(x, y, sz)
+    }
+    pub fn mint_sub(x: &mut [u64; MINT_WORDS], y: &[u64], sz: u32) {
+        super::mint_sub(x, y, sz)
+    }
+    /// The combined multiply-reduce without the final conditional subtraction of `ZmodN::mul`.
+    pub fn mint_mulmod(zn: &ZmodN, res: &mut [u64], x: &[u64], y: &[u64], sz: u32) {
+        super::mint_mulmod(zn, res, x, y, sz)
+    }
+}
